@@ -36,7 +36,17 @@
 #define KEY CO_DEV(0x2345, 6)
 
 static uint32_t cb_n, cb_code; static uint16_t cb_idx; static uint8_t cb_sub;
-static void cb(CO_CSDO *c, uint16_t idx, uint8_t sub, uint32_t code) { (void)c; cb_n++; cb_code = code; cb_idx = idx; cb_sub = sub; }
+/* CBTMR: the completion callback of the first transfer starts an application timer (as an application that
+ * schedules a retry would): it must survive the end of the transfer and fire when due */
+static int16_t  app_tmr = -1; static uint32_t app_fired; static uint8_t cb_arm;
+static void app_cb(void *p) { (void)p; app_fired++; }
+static void cb(CO_CSDO *c, uint16_t idx, uint8_t sub, uint32_t code)
+{
+    (void)c; cb_n++; cb_code = code; cb_idx = idx; cb_sub = sub;
+#ifdef CBTMR
+    if (cb_arm) { cb_arm = 0; app_tmr = COTmrCreate(&node.Tmr, 2, 0, app_cb, 0); }
+#endif
+}
 
 #if KIND == 0
 #define BUFN (SIZE + 8)
@@ -80,6 +90,7 @@ void harness(void)
         for (i = 0; i < BUFN; i++) { ubuf0[i] = ubuf[i]; }
         ASSUME(acode != 0);
         env_tx_n = 0;
+        cb_arm = 1;
         e = DIRN ? COCSdoRequestDownload(c, KEY, &ubuf[4], SIZE, cb, TMO1) : COCSdoRequestUpload(c, KEY, &ubuf[4], SIZE, cb, TMO1);
         CHECK(e == CO_ERR_NONE && env_tx_n == 1 && env_tx[0].Identifier == SRV_RX && env_tx[0].DLC == 8, "request sent");
         CHECK(env_tx[0].Data[1] == 0x45 && env_tx[0].Data[2] == 0x23 && env_tx[0].Data[3] == 6, "request names the object");
@@ -170,6 +181,12 @@ void harness(void)
         for (i = 0; i < 4; i++) { CHECK(ubuf[i] == ubuf0[i] && ubuf[4 + SIZE + i] == ubuf0[4 + SIZE + i], "nothing written outside the user buffer"); }
         if (DIRN == 1) { for (i = 0; i < SIZE; i++) { CHECK(ubuf[4 + i] == ubuf0[4 + i], "download leaves the user buffer alone"); } }
         CHECK(c->State == CO_CSDO_STATE_IDLE, "client idle after the transfer");
+#ifdef CBTMR
+        CHECK(app_tmr >= 0, "a timer can be created inside the completion callback");
+        CHECK(free_actions() == OD_TMR_N - 1, "only the timer created by the callback is in use after the transfer");
+        env_tick(&node); env_tick(&node);
+        CHECK(app_fired == 1, "a timer created inside the completion callback survives the end of the transfer and fires when due");
+#endif
         CHECK(free_actions() == OD_TMR_N, "no timer left behind by the finished transfer");
         COVER(cb_code != 0, "failed transfer");
 #if FOLLOW
